@@ -1085,6 +1085,8 @@ impl Prop for C17Prop {
             "[1,null,\"x\",{\"b\":true}]", "{\"a\":[1,null,\"x\",{\"b\":true}],\"n\":null,\"k k\":[]}", "[[[[[1]]]]]", "{\"a.b\":{\"c d\":{\"e[0]\":{\"f\":{\"g\":null}}}}}",
             "{\"\":\"\"}", "[\"\",\"\"]", "[[],[],{}]", "{\"b\":1,\"a\":2,\"c\":[3,{\"z\":0,\"y\":null}]}", "[\"true\",true,\"1\",1]", "[1.0,1.5e300,-0.0,18446744073709551615,-9223372036854775808]",
             "{\"k\":\"${x}\",\"%{y}\":\"\\\\\"}", "[\"\\u0000\",\"\\n\",\"é😀\"]",
+            // scalars that look like the commands' own options
+            "\"--collection\"", "\"--prefix\"", "\"-r\"", "[\"--collection\"]", "{\"--collection\":\"--collection\"}", "\"handle:\"",
         ] {
             let v: Value = serde_json::from_str(t).unwrap();
             out.push(json_case(&v));
